@@ -41,6 +41,10 @@ T = {
     text="Generated Boolean structure over theory atoms (incl. Boolean selects, UF) with nested/shadowing finite-sort quantifiers, arithmetic terms, and conjunctions with top-level equalities are passed to nnf, prenex_normal_form, aig, TimesDistributor, conjunctive/disjunctive partition, propagate_toplevel (both modes) and both Boolean QE procedures; each result must have the same value under all (<=128) or 12 sampled interpretations, introduce no free symbol, and satisfy the advertised shape predicate.",
     note="Trusted: vf/refsem.py and the shape predicates in vf/checks/c10.py. Quantifiers evaluated over finite sorts only; calls exceeding 5 s or evaluations exceeding the step budget are inconclusive (counted), never violations.",
     technique="property-based equivalence testing by exhaustive/sampled reference evaluation + shape predicates"),
+ "C11": dict(level="exploration", design="4/C11",
+    text="CNF: for cnf / cnf_as_set / PolarityCNFizer on generated QF formulas (constants, ITE, IFF, shared sub-formulas, real theory atoms) the result must be a conjunction of clauses of literals and, for every explored interpretation of the input's symbols, the clause set restricted by that interpretation must be satisfiable over the fresh symbols iff the interpretation satisfies the input (exact DPLL = all values of the introduced symbols). Ackermann: no application may remain; models of the input extended by ack := value of the application must satisfy the output; every satisfying assignment of the output must yield (tables read off the constants, or any table among all) functions under which the input holds.",
+    note="Trusted: vf/refsem.py, the DPLL in vf/checks/c11.py; Ackermann inputs restricted to function symbols over carriers of size <= 4 so all tables can be enumerated.",
+    technique="property-based model-by-model checking with exhaustive enumeration of the auxiliary symbols / function tables"),
 }
 
 checks, na = [], []
